@@ -3,11 +3,12 @@ From Coq Require Import List String.
 From VQ.Gen Require Import pat_fsq_forward.
 Import ListNotations.
 Open Scope string_scope.
-Lemma pin_pat_fsq_forward : pat_fsq_forward =
+Definition pinned_pat_fsq_forward : list (string * string) :=
   [("rearrange", "b d ... -> b ... d");
    ("pack_one", "b * d");
    ("rearrange", "b n (c d) -> b n c d");
    ("rearrange", "b n c d -> b n (c d)");
    ("unpack_one", "b * d");
    ("rearrange", "b ... d -> b d ...")].
+Lemma pin_pat_fsq_forward : pat_fsq_forward = pinned_pat_fsq_forward.
 Proof. reflexivity. Qed.
